@@ -76,11 +76,9 @@ fn judge(t: &Table, req: &Req, exp: &refr::Expected, got: &Outcome) -> Option<(S
         let moved = refr::decode(&req.path, b"+");
         if moved != req.path && moved.starts_with('/') {
             let alt = refr::route(t, &Req { path: moved.clone(), ..req.clone() });
-            let same = match (&alt.outcomes[0], &gotn) {
-                (Outcome::Handler(e), Outcome::Handler(g)) => e.tag == g.tag,
-                (Outcome::Status(a), Outcome::Status(b)) => a == b,
-                _ => false,
-            };
+            // only a tagged handler that saw exactly what the moved path would give counts (bare
+            // 404/405 coincide too easily)
+            let same = matches!(gotn, Outcome::Handler(_)) && alt.outcomes.iter().any(|o| *o == gotn);
             if same {
                 return Some((
                     "c".into(),
@@ -488,7 +486,7 @@ fn main() {
     let menus = gen::menus(thorough);
     let fams = gen::families(&menus);
     let tables = gen::all_tables(&fams);
-    let paths = gen::paths();
+    let paths = gen::paths(thorough);
     let n = tables.len();
 
     // VERIF_SEED only permutes the processing order
@@ -610,7 +608,7 @@ fn main() {
             "rule",
             "evaluation = one (route table, request) pair run through the real App and the reference router. \
              Tables: union of the families listed under 'families' (each the full cartesian product of its holes, deduplicated). \
-             Requests per table: every path of 1..3 segments over {a,b,s,1,'',a%2Fb,%61,%25} and every 4-segment path over {a,s,1}, \
+             Requests per table: every path of 1..3 segments over {a,b,s,1,'',a%2Fb,%61,%25} (thorough adds %2f and %2B) and every 4-segment path over {a,s,1}, \
              each with and without trailing slash, x {GET,POST} x x-g {absent,1} x Host {absent,h.test} (header dimensions only varied when the table has such a guard). \
              distinct_nontrivial = number of distinct (table, outcome class) pairs, outcome class = handler tag + captured parameter names + resolved marker (captured values ignored), \
              counted only when non-trivial: the route handler that ran lies inside >= 1 scope and saw >= 1 path parameter, \
